@@ -62,7 +62,7 @@ def dm(d, f):
     return "%02d%02d" % ((d.day, d.month) if f < 2 else (d.month, d.day))
 
 
-def automan_row(rnd, f, code, sow, har, har_latest, fixed_sow, fixed_har, off1=None, org=None, off2=None):
+def automan_row(rnd, f, code, sow, har, har_latest, fixed_sow, fixed_har, off1=None, org=None, off2=None, irr=None):
     buf = [" "] * 185
     def put(pos, text):
         for i, ch in enumerate(text):
@@ -87,6 +87,8 @@ def automan_row(rnd, f, code, sow, har, har_latest, fixed_sow, fixed_har, off1=N
     put(60, "%4s" % {"rain": rnd.choice(["0.1", "0.0", "0.3"]), "mixed": rnd.choice(["0.5", "0.1", "9.0"])}.get(hprof, "9.0"))
     put(68, "%3d" % (rnd.choice([0, 100, 380]) if prof in ("temp", "mixed") else 0)); put(74, "%2d" % rnd.choice([0, 0, 5]))
     s1 = rnd.choice([1, 2, 3, 4]); s2 = rnd.choice([x for x in (2, 3, 4, 5, 6) if x >= s1])
+    if irr:
+        s1, s2 = irr[0], irr[1]
     put(80, "%d" % s1); put(87, "%d" % s2)
     nd = (rnd.choice([0, 60, 120, 200]), rnd.choice([0, 80, 120]), rnd.choice([0, 0, 60]))
     put(94, "%3d" % nd[0]); put(100, "%3d" % nd[1]); put(106, "%3d" % nd[2])
@@ -97,6 +99,8 @@ def automan_row(rnd, f, code, sow, har, har_latest, fixed_sow, fixed_har, off1=N
     else:
         put(143, "---"); put(149, "  0"); put(156, "000")
     il, idp, imx = rnd.choice([40, 60, 80, 95]), rnd.choice([30, 60, 90]), rnd.choice([0, 1, 5, 10, 20, 50])
+    if irr:
+        il, idp, imx = irr[2], irr[3], irr[4]
     put(163, "%3d" % il); put(170, "%3d" % idp); put(177, "%3d" % imx)
     automan_row.last = {"irrst1": float(s1), "irrst2": float(s2), "irrlow": il / 100.0, "irrdep": idp / 10.0, "irrmax": float(imx),
                         "ndem1": float(nd[0]), "ndem2": float(nd[1]), "ndem3": float(nd[2])}
@@ -381,8 +385,23 @@ def _run(ctx):
     # crop-skip scenarios (automatic sowing + automatic fertilisation with organic fertiliser "H")
     nskip = 40 if ctx.thorough else 4
     cases += [make_case(rnd, n + i, force_sw=rnd.choice([3, 7, 11, 15]), org_p=1.0, skip=True) for i in range(nskip)]
+    # a permanent crop standing into a second year under automatic irrigation with the stage window 3..6: when the stand re-sprouts
+    # (development stage back to 1) it must not be irrigated before stage 3 again
+    for j in range(12 if ctx.thorough else 2):
+        pc = make_case(rnd, len(cases), force_sw=4, org_p=0.0)
+        y0 = pc["begin"].year
+        code = ["AA", "GR"][j % 2]
+        sow, har = datetime.date(y0 + 1, 4, rnd.randrange(5, 25)), datetime.date(y0 + 2, 9, rnd.randrange(5, 25))
+        pc["end"] = datetime.date(y0 + 2, 11, 20); pc["E"] = daynum(pc["end"])
+        row, (w1, w2) = automan_row(rnd, pc["fmt"], code, sow, har, har, True, True, None, None, None, (3, 6, rnd.choice([80, 95]), 60, 20))
+        pc["crops"] = [pc["crops"][0], (code, sow, har, {"w1": w1, "w2": w2, "latest": har, "fixed_sow": True, "fixed_har": True, "org": None,
+                                                      "skip": False, "par": dict(automan_row.last)})]
+        pc["rows"] = {k_: v_ for k_, v_ in pc["rows"].items() if (k_ == pc["crops"][0][0] or k_.startswith("~")) and k_.lstrip("~") != code}
+        pc["rows"][code] = row
+        pc["weather"] = "historical"
+        cases.append(pc)
     # dedicated case of a recorded finding: organic fertiliser "H" on the last rotation entry with automatic sowing + fertilisation
-    cases += [make_case(rnd, n + nskip, force_sw=3, org_p=1.0, lastskip=True)]
+    cases += [make_case(rnd, len(cases), force_sw=3, org_p=1.0, lastskip=True)]
     rc, cases, err, ex = run_cases(ctx, cases, "c16_", extreme=True)
     more = second_pass_cases(ctx, rnd, cases, 60 if ctx.thorough else 8) if rc == 0 else []
     if more:
